@@ -205,3 +205,14 @@ func vRunReplay(entries map[string]func()) {
 		}
 	}
 }
+
+// non-short-circuit boolean connectives (keep harness conditions free of branches)
+func vAnd(a, b bool) bool { return a && b }
+func vOr(a, b bool) bool  { return a || b }
+func vNot(a bool) bool    { return !a }
+func vIte(c bool, a, b int64) int64 {
+	if c {
+		return a
+	}
+	return b
+}
